@@ -368,9 +368,19 @@ def plans(tier, seed):
             P.append(("stmt8-" + t, dict(types=[t], ops=["+", "*", "/", "<", "=="], unary=("not",),
                                          stmts=("let", "set", "cset", "if"), nodes=8, stack=2, lits=(2,),
                                          litmax=False, params=1, frames=1), None))
+        # three nested binary operators (all tree shapes), restricted operator sets
+        for t, ops in (("i8", ["-", "*", "/", "<"]), ("u8", ["-", "/", "<", "or"]), ("i16", ["+", "*", "%", ">="]),
+                       ("u16", ["-", "*", "/", "=="])):
+            P.append(("expr8-" + t, dict(types=[t], ops=ops, unary=(), nodes=8, stack=3, lits=(2,), litmax=False,
+                                         params=2), None))
+        P.append(("ctl12-u8", dict(types=["u8"], ops=["<"], unary=(), nodes=12, stack=2, stmts=("set", "if"),
+                                   lits=(0,), litmax=False, params=2, locals_=1, frames=2), None))
+        P.append(("ctl-sim", dict(types=["u8", "i8"], ops=["<", "+", "-"], unary=("cast",), stmts=("let", "set", "cset", "if"),
+                                  nodes=26, stack=2, locals_=2, params=2, frames=2, lits=(0, 2), litmax=False,
+                                  minnodes=14), "num=3000"))
         P.append(("stmt-sim", dict(types=n4 + ["i32", "u32"], stmts=("let", "set", "cset", "if"), nodes=16, stack=3,
-                                   locals_=3, params=3, frames=2, lits=(0, 2), wide=True), "num=2500"))
-        P.append(("expr-sim", dict(types=n4 + ["i32"], nodes=12, stack=4, params=3, lits=(0, 1, 2)), "num=2500"))
+                                   locals_=3, params=3, frames=2, lits=(0, 2), wide=True), "num=4000"))
+        P.append(("expr-sim", dict(types=n4 + ["i32"], nodes=12, stack=4, params=3, lits=(0, 1, 2)), "num=4000"))
     return P
 
 
